@@ -6,6 +6,7 @@ import (
 	"sort"
 	"testing"
 
+	"gonum.org/v1/gonum/stat/distuv"
 	"pgregory.net/rapid"
 	"verifharness/vk"
 )
@@ -427,6 +428,45 @@ func checkPointDiscrete(fs *fails, s *uvSpec, c uvCase, d any) {
 	}
 }
 
+// checkCategoricalReweight: after Reweight / ReweightAll the law is that of the
+// new weights.
+func checkCategoricalReweight(fs *fails, s *uvSpec, c uvCase) {
+	w := c.params()
+	n := len(w)
+	if n < 2 {
+		return
+	}
+	cat := distuv.NewCategorical(w, rand.NewPCG(c.S1, c.S2))
+	if cat.Len() != n {
+		fs.add(fail(s, "len", c, "Len()=%d", cat.Len()))
+	}
+	idx := int(c.S2 % uint64(n))
+	nw := append([]float64(nil), w...)
+	nw[idx] = w[(idx+1)%n] + 0.75
+	cat.Reweight(idx, nw[idx])
+	ref := distuv.NewCategorical(nw, nil)
+	for k := 0; k < n; k++ {
+		if a, b := cat.Prob(float64(k)), ref.Prob(float64(k)); !closeRel(a, b, 1e-12) {
+			fs.add(fail(s, "reweight", c, "after Reweight(%d, %v): Prob(%d)=%v, a new Categorical with these weights gives %v", idx, nw[idx], k, a, b))
+			return
+		}
+		if a, b := cat.CDF(float64(k)), ref.CDF(float64(k)); !closeRel(a, b, 1e-12) {
+			fs.add(fail(s, "reweight", c, "after Reweight(%d, %v): CDF(%d)=%v, a new Categorical with these weights gives %v", idx, nw[idx], k, a, b))
+			return
+		}
+	}
+	cat.ReweightAll(w)
+	orig := distuv.NewCategorical(w, nil)
+	for k := 0; k < n; k++ {
+		if a, b := cat.Prob(float64(k)), orig.Prob(float64(k)); !closeRel(a, b, 1e-12) {
+			fs.add(fail(s, "reweightall", c, "after ReweightAll: Prob(%d)=%v want %v", k, a, b))
+			return
+		}
+	}
+	fs.add(vk.MustPanic("Categorical-reweight-negative-must-panic", func() { cat.Reweight(0, -1) }))
+	fs.add(vk.MustPanic("Categorical-reweightall-length-must-panic", func() { cat.ReweightAll(make([]float64, n+1)) }))
+}
+
 func checkUVPoint(c uvCase) *vk.Failure {
 	s := uvByName[c.T]
 	d := s.mk(c.params(), rand.NewPCG(c.S1, c.S2))
@@ -434,6 +474,9 @@ func checkUVPoint(c uvCase) *vk.Failure {
 	var fs fails
 	if s.discrete {
 		checkPointDiscrete(&fs, s, c, d)
+		if s.name == "Categorical" {
+			checkCategoricalReweight(&fs, s, c)
+		}
 	} else {
 		checkPointContinuous(&fs, s, c, d)
 	}
